@@ -123,6 +123,9 @@ class Encoder(object):
         Default encoder for all objects that do not have a specific encoder function
         registered. This function simply calls :meth:`str()` on the object.
         """
+        if isinstance(val, str):
+            # a subclass of str is not found by the exact-type lookup; it is still text
+            return cql_quote(val)
         return str(val)
 
     def cql_encode_float(self, val):
